@@ -315,8 +315,11 @@ async fn run_all(inp: &str, outp: &str) -> Result<Value, String> {
                     2 => BatchType::Counter,
                     _ => BatchType::Logged,
                 });
+                // "bunprep": the middle statement is given as TEXT although it has values: the driver prepares it on the fly
+                // (and rebuilds the batch); the frame must still say everything the caller said
+                let bunprep = sc["bunprep"].as_u64() == Some(1) && n > 0;
                 b.append_statement(prepared[n].clone());
-                b.append_statement(Statement::new(stmt_text(0)));
+                b.append_statement(Statement::new(stmt_text(if bunprep { n } else { 0 })));
                 b.append_statement(prepared[n].clone());
                 if lvl == 0 {
                     b.set_consistency(cl);
@@ -327,7 +330,8 @@ async fn run_all(inp: &str, outp: &str) -> Result<Value, String> {
                 b.set_tracing(tracing);
                 b.set_is_idempotent(idem);
                 let empty: Cells = Vec::new();
-                session.batch(&b, (vals.clone(), empty, vals.clone())).await.map(|_| ()).map_err(|e| e.to_string())
+                let mid = if bunprep { vals.clone() } else { empty };
+                session.batch(&b, (vals.clone(), mid, vals.clone())).await.map(|_| ()).map_err(|e| e.to_string())
             }
             other => Err(format!("HARNESS: unknown kind {other:?}")),
         };
